@@ -277,7 +277,9 @@ def main(tier):
     run.assume("restarts with uniform aligned strides; skip_last=False")
     run.assume("state abstraction = set of (restart, file, dataset, digest);"
                " iterations.txt/content.txt are functions of the directory")
+    hs = runner.hashseed_children(PID, run) if tier == 'thorough' else []
     return run.finish({
+        'hash_seed_children': hs,
         'states': total['states'], 'transitions': total['transitions'],
         'traces_validated_against_impl': total['transitions'],
         'histories_pruned': total['pruned'], 'per_plan': per,
